@@ -15,6 +15,33 @@ CHECKS = {
          "Every string of length <=5 (thorough 6) over {LF,CR,TAB,a,wide CJK,e-acute} incl. the empty one x every span and position is rendered with to_string() and with a recording FormatOption under catch_unwind; the output is parsed (numbered lines, highlighted text, marker cells) and compared with line numbers, pictured line texts, first/last line and marker cells computed from the statement. Random texts add >5-line spans and 2-3 digit gutters.",
          "display cells are unicode-width 0.1.14 width_cjk (the crate's own definition); known finding K4b classified by an exact defect model", "6 C14"),
 }
+G = "seeded corpus of generated grammars (general, stack, atomicity, slice, sub-input, repo, regression families) compiled with the real derive macro and with pest_derive into shard crates; proptest drives grammar-derived inputs (tape-driven sentence generator + mutations); "
+CHECKS.update({
+ "C01": ("runner", "proptest over generated grammars x grammar-derived inputs; differential against the pest_derive parser where pest is defined (decided by a simulation of pest's stack handling), against a reference PEG interpreter with full backtracking elsewhere",
+         G + "try_parse_partial verdict and offset of every rule as entry are compared with pest's own parser and with the reference interpreter R. Sampled grammars (<=10 rules, depth <=4) and inputs (<=64 chars): exploration, not proof.",
+         "pest_derive 2.7.14 and pest_meta's AST; R (crates/core/src/interp.rs) is validated against pest on every case where pest is defined (disagreements counted, never reported as violations); known findings K1, K2 classified by exact defect models", "6 C01"),
+ "C02": ("runner", "proptest over generated grammars x accepted inputs; differential of token forests against pest's Pairs (pruned under @/$ rules) and against the reference derivation",
+         G + "the thin token forest of every accepted parse is compared three-way: typed, pest after the documented pruning, reference derivation projection.",
+         "rule kinds for the pruning come from the grammar text; K3/K1 classified by defect models", "6 C02"),
+ "C03": ("runner", "proptest, metamorphic relation check-vs-parse on the typed parser, all input forms, own Stack/Tracker variants included",
+         G + "check and parse entry points must agree in verdict, cursor, error Debug/Display, final stack and tracker content for &str, Position and Span inputs.",
+         "relation is internal to pest-typed; the external tie to pest comes from C01/C02 on the same corpus", "6 C03"),
+ "C04": ("runner", "proptest with tail-constructed inputs; oracle = prefix parse + reference interpreter's trailing-skip closure",
+         G + "try_parse / try_check / TypedParser::try_parse / try_check must be Ok exactly when the prefix parse is Ok and the implicit-skip closure from its offset reaches the end of input (no skip for @/$ entries); the tree must equal the prefix tree.",
+         "trailing skip computed by the reference interpreter (validated against pest through C01/C07)", "6 C04"),
+ "C08": ("runner", "proptest + small-scope exhaustive enumeration, metamorphic relation sub-input vs fresh copy of the slice",
+         G + "Span(host,a,b) / Position(host,a) results must equal the results on a fresh copy of the slice shifted by a (verdict, cursor, tokens, error position) for the four entry points, and must not depend on text outside the range; all strings <=4 (thorough 6) over {X,Y,a,b} x all boundary pairs on a hand-written family of cut-sensitive rules, random hosts elsewhere.",
+         "only the grammars compiled with all input forms (about a quarter of the corpus plus the sub-input, repo and regression families)", "6 C08"),
+ "C09": ("runner", "proptest with multi-byte-heavy inputs, all entry points and input forms under catch_unwind, offset validity predicate; debug-like vs release-like observation logs compared",
+         G + "no entry point may panic; cursor, every token span, error location/line-col, tracker position and stack spans must lie in the given range on character boundaries.",
+         "cases R marks not well-founded are excluded; release-like (unchecked slicing) comparison covers the grammars compiled with all forms", "6 C09"),
+ "C15": ("runner", "proptest over accepted inputs; traversal results compared with a plain recursion over as_token()",
+         G + "iterate_pre_order (with depths), iterate_level_order, format_as_tree/write_tree_to, children(), as_thin_token() and span nesting are compared with values computed by recursion from the token tree, which C02 ties to pest.",
+         "rules that carry content (normal, $, !); atomic rules have no PairTree", "6 C15"),
+ "C18": ("runner", "proptest over pairs of sub-ranges of one host object and over generated histories of parse calls; oracle: == iff identical Debug, == implies equal hash, clone equality, repeated probe identical",
+         G + "pairs built on purpose to differ late (last character, one skipped blank, span offset) so that a partial eq/hash is caught; histories of up to 5 intervening parses of other rules/grammars between two probes.",
+         "Debug prints every stored field (spans, skipped items), which is what makes it a usable structural oracle", "6 C18"),
+})
 NOT_YET = {}
 
 def main():
